@@ -10,14 +10,14 @@ SPEC = {
     "trusted_base": [
         "Coq 8.16.1 kernel (coqc; coqchk in the thorough tier); no native_compute",
         "harness/cmd/ledger + harness/internal/muxdrv (drives the real ABCI multiplexer with all real apps; reads the full staking state after every block through stakingState.ImmutableState; decodes events with the real decoders)",
-        "vm_compute evaluation of Verif.Ledger.Ops (run_check) on the recorded per-block cases (no extraction)",
-        "oracle inputs of the model operations that are decided outside the ledger and taken from the harness / the block's events: proposer and voter entities (harness bookkeeping), who was slashed (TakeEscrowEvent owners), who was rewarded at epoch transitions (AddEscrowEvent escrow accounts), current commission rate (the real CommissionSchedule.CurrentRate), reward schedule step, closed proposals' deposits (TransferEvents from the governance deposits address), validity of ledger-neutral transactions (commission amendments, votes)",
+        "vm_compute evaluation of Verif.Ledger.Ops (run_check_inv: the model run on the block compared field by field with the post-state dump, plus inv_b -- proved equivalent to Inv -- evaluated on the implementation's own pre- and post-state dumps) on the recorded per-block cases (no extraction)",
+        "oracle inputs of the model operations that are decided outside the ledger: proposer and voter entities, who is slashed (evidence against a validator the harness has not yet seen frozen), who is rewarded for signing (the harness's own per-epoch signing tally and the threshold, in entity-key order) -- all recomputed by the harness, not read from staking events; who is rewarded for being elected (the scheduler's validator set after the block, C14's domain); current commission rate (the real CommissionSchedule.CurrentRate), reward schedule step, closed proposals' deposits (TransferEvents from the governance deposits address), validity of ledger-neutral transactions (commission amendments, votes)",
         "hand-written port: Ledger/State.v + Ledger/Ops.v model transactions.go, fees.go, state/gas.go, state/state.go (SlashEscrow, AddRewards, AddRewardSingleAttenuated, governance deposit moves), staking.go onEpochChange; share arithmetic shared with C15 (Ledger/SharePool.v)",
     ],
     "assumptions": [
         "block protocol: disburseFeesVQ (BeginBlock) and disburseFeesP (EndBlock) alternate, one each per block (the model returns RMisuse otherwise); between them the persisted last-block-fees value is stale in the code and is not counted",
         "a BeginBlock/EndBlock error aborts the block (multiplexer panics): modelled as RFatal with the state unchanged",
-        "not modelled: withdraw hooks of vault accounts, roothash runtime messages and TransferFromCommon (no runtimes in the histories), UndisableTransfersFrom, registry stake claims, gas accounting beyond 'limit covers size (+ operation)'",
+        "not modelled: withdraw hooks of vault accounts, roothash runtime messages (TransferFromCommon is modelled and proved but not exercised by K: no runtimes in the histories), UndisableTransfersFrom, registry stake claims, gas accounting beyond 'limit covers size (+ operation)'",
     ],
 }
 
